@@ -1,9 +1,11 @@
 import Amshan.Lemmas.P1CleanInv
+import Amshan.Lemmas.P1CleanResync
 /-
   P1 reader on clean streams (C05) and resynchronisation (C16, P1 part): umbrella module.
   P1CleanLoop   : generic facts about `Buf.pop` / `loop`
   P1CleanWire   : the lines of a well-formed readout
   P1CleanHandle : `handleLine`, `Readout.make`, basic reader invariant `BI`
   P1CleanIdent  : identification line recognised; `make_encode`
-  P1CleanInv    : `Trace`, `Inv`, `inv_step`, `readAll_inv`
+  P1CleanInv    : `Trace`, `Inv`, `inv_step`, `readAll_inv`            (C05)
+  P1CleanResync : `InvP`, `InvN`, `pre_step`, `mid_step`, `resync`     (C16)
 -/
